@@ -211,6 +211,7 @@ pub fn run(ctx: &mut Ctx) {
   }
   expression_crystals(ctx);
   routes(ctx);
+  text_forms(ctx);
   history_independence(ctx);
 }
 
@@ -763,6 +764,7 @@ fn routes(ctx: &mut Ctx) {
       ("from_string", guard(|| CrystalType::from_string(meta_id).ok()).flatten()),
       ("FromStr", guard(|| meta_id.parse::<CrystalType>().ok()).flatten()),
       ("serde", serde_json::from_str::<CrystalType>(&format!("\"{}\"", meta_id)).ok()),
+      ("serde_whitespace", serde_json::from_str::<CrystalType>(&format!(" \n\t\"{}\" \r\n", meta_id)).ok()),
       ("serde_roundtrip", serde_json::to_string(c).ok().and_then(|j| serde_json::from_str::<CrystalType>(&j).ok())),
       ("display_parse", guard(|| CrystalType::from_string(&c.to_string()).ok()).flatten()),
       ("clone", Some(c.clone())),
@@ -844,5 +846,237 @@ fn routes(ctx: &mut Ctx) {
     ctx.count("routes/expr");
     let base = format!("crystal=expr/{} route_evaluations={}", label, cases);
     ctx.s("C01.routes", bad.is_none(), &format!("routes/expr/{}", v), bad.as_ref().unwrap_or(&base));
+  }
+}
+
+// --------------------------------------------------------------------------- K + S: textual variants of the parser inputs
+/// `(name, value)` pairs of a compact `{"no":"A","ne":"B"}` source of `expr_sources`
+fn expr_pairs(json: &str) -> Vec<(String, String)> {
+  json.trim_matches(|ch| ch == '{' || ch == '}').split("\",\"").map(|kv| {
+    let kv = kv.trim_matches('"');
+    let (k, val) = kv.split_once("\":\"").unwrap_or((kv, ""));
+    (k.to_string(), val.to_string())
+  }).collect()
+}
+
+/// which parser a text form is written for
+#[derive(Clone, Copy, PartialEq)]
+enum Syntax {
+  /// strict JSON: `from_string`, `FromStr`, `serde_json`, and as the `kind` of a `CrystalConfig` JSON
+  Json,
+  /// HJSON / equation form: `from_string`, `FromStr` only
+  Hjson,
+}
+
+/// Every textual layout of ONE expression crystal (same names, same formulas): whitespace around and inside the
+/// document, pretty-printed vs compact, key order, HJSON liberties (trailing commas, quoteless keys/values, comments,
+/// single quotes), the documented `name = expression` line form and its layouts.  `required` = a documented form that
+/// the parser accepts on the pinned tree: it must build the crystal (S `C01.text_forms`); the others are forms the
+/// pinned tree rejects (kept in the K table only: `parse_form` mirrors what the code accepts).
+fn expr_text_forms(pairs: &[(String, String)]) -> Vec<(&'static str, Syntax, bool, String)> {
+  let q = |sep_kv: &str, sep: &str, open: &str, close: &str, ps: &[(String, String)]| -> String {
+    format!("{}{}{}", open, ps.iter().map(|(k, v)| format!("\"{}\"{}\"{}\"", k, sep_kv, v)).collect::<Vec<_>>().join(sep), close)
+  };
+  let compact = q(":", ",", "{", "}", pairs);
+  let pretty = |ind: &str, nl: &str| -> String {
+    format!("{{{nl}{}{nl}}}", pairs.iter().map(|(k, v)| format!("{ind}\"{k}\": \"{v}\"")).collect::<Vec<_>>().join(&format!(",{nl}")))
+  };
+  let rev: Vec<(String, String)> = pairs.iter().rev().cloned().collect();
+  let mut rot: Vec<(String, String)> = pairs.to_vec();
+  rot.rotate_left(1);
+  let lines = |ind: &str, eq: &str, nl: &str, ps: &[(String, String)]| -> String {
+    ps.iter().map(|(k, v)| format!("{ind}{k}{eq}{v}{nl}")).collect::<String>()
+  };
+  let spaced: Vec<(String, String)> = pairs.iter().map(|(k, v)| (k.clone(), v.replace('*', " * ").replace('/', " / ").replace("sqrt(", "sqrt( "))).collect();
+  let padded: Vec<(String, String)> = pairs.iter().map(|(k, v)| (k.clone(), format!("  {} ", v))).collect();
+  let upper: Vec<(String, String)> = pairs.iter().map(|(k, v)| (k.to_uppercase(), v.clone())).collect();
+  use Syntax::*;
+  vec![
+    // ---- strict JSON
+    ("json/compact", Json, true, compact.clone()),
+    ("json/lead-space", Json, true, format!(" {}", compact)),
+    ("json/lead-newline", Json, true, format!("\n{}", compact)),
+    ("json/lead-tab", Json, true, format!("\t{}", compact)),
+    ("json/lead-crlf", Json, true, format!("\r\n{}", compact)),
+    ("json/lead-many", Json, true, format!(" \n\t \n    {}", compact)),
+    ("json/trail-space", Json, true, format!("{} ", compact)),
+    ("json/trail-newline", Json, true, format!("{}\n", compact)),
+    ("json/both-ws", Json, true, format!("\n  {}  \n", compact)),
+    ("json/pretty2", Json, true, pretty("  ", "\n")),
+    ("json/pretty4", Json, true, pretty("    ", "\n")),
+    ("json/pretty-tabs", Json, true, pretty("\t", "\n")),
+    ("json/pretty-crlf", Json, true, pretty("  ", "\r\n")),
+    ("json/doc-layout", Json, true, format!("\n{}\n", pretty("  ", "\n"))),
+    ("json/doc-layout-indented", Json, true, format!("\n{}\n  ", pretty("  ", "\n").lines().map(|l| format!("    {}", l)).collect::<Vec<_>>().join("\n"))),
+    ("json/space-after-colon", Json, true, q(": ", ", ", "{ ", " }", pairs)),
+    ("json/space-before-colon", Json, true, q(" : ", " , ", "{", "}", pairs)),
+    ("json/inner-newlines", Json, true, q("\n:\n", "\n,\n", "{\n", "\n}", pairs)),
+    ("json/key-reversed", Json, true, q(":", ",", "{", "}", &rev)),
+    ("json/key-rotated", Json, true, q(":", ",", "{", "}", &rot)),
+    ("json/key-reversed-doc-layout", Json, true, format!("\n{{\n{}\n}}\n", rev.iter().map(|(k, v)| format!("  \"{k}\": \"{v}\"")).collect::<Vec<_>>().join(",\n"))),
+    ("json/expr-spaced", Json, true, q(":", ",", "{", "}", &spaced)),
+    ("json/expr-padded", Json, true, q(":", ",", "{", "}", &padded)),
+    ("json/upper-keys", Json, false, q(":", ",", "{", "}", &upper)),
+    // ---- HJSON
+    ("hjson/trailing-comma", Hjson, true, q(":", ",", "{", ",}", pairs)),
+    ("hjson/pretty-trailing-comma", Hjson, true, format!("\n{{\n{}}}\n", pairs.iter().map(|(k, v)| format!("  \"{k}\": \"{v}\",\n")).collect::<String>())),
+    ("hjson/no-commas", Hjson, true, format!("{{\n{}}}", pairs.iter().map(|(k, v)| format!("  \"{k}\": \"{v}\"\n")).collect::<String>())),
+    ("hjson/quoteless-keys", Hjson, true, format!("{{{}}}", pairs.iter().map(|(k, v)| format!("{k}:\"{v}\"")).collect::<Vec<_>>().join(","))),
+    ("hjson/lead-newline-quoteless-keys", Hjson, true, format!("\n  {{{}}}\n", pairs.iter().map(|(k, v)| format!("{k}: \"{v}\"")).collect::<Vec<_>>().join(", "))),
+    ("hjson/quoteless-values", Hjson, true, format!("{{\n{}}}\n", lines("  ", ": ", "\n", pairs))),
+    ("hjson/lead-newline-quoteless-values", Hjson, true, format!("\n{{\n{}}}\n", lines("  ", ": ", "\n", pairs))),
+    ("hjson/equals-in-braces", Hjson, true, format!("\n{{\n{}}}\n", lines("  ", " = ", "\n", pairs))),
+    ("hjson/single-quotes", Hjson, true, format!("{{{}}}", pairs.iter().map(|(k, v)| format!("'{k}':'{v}'")).collect::<Vec<_>>().join(","))),
+    ("hjson/comment-hash", Hjson, true, format!("{{\n  # published formulas\n{}}}", pairs.iter().map(|(k, v)| format!("  \"{k}\": \"{v}\"\n")).collect::<String>())),
+    ("hjson/comment-slashes", Hjson, true, format!("{{\n  // published formulas\n{}}}", pairs.iter().map(|(k, v)| format!("  \"{k}\": \"{v}\" // index\n")).collect::<String>())),
+    ("hjson/comment-block", Hjson, true, format!("{{ /* published\n formulas */ {}", &compact[1..])),
+    // a comment in front of the opening brace: the pinned parser wraps such a document in braces again (K table only)
+    ("hjson/comment-before-brace", Hjson, false, format!("// published formulas\n{}", compact)),
+    ("hjson/block-comment-before-brace", Hjson, false, format!("/* published formulas */ {}", compact)),
+    // ---- the documented `name = expression` line form
+    ("eqn/doc-layout", Hjson, true, format!("\n{}", lines("  ", " = ", "\n", pairs))),
+    ("eqn/no-lead-newline", Hjson, true, lines("  ", " = ", "\n", pairs)),
+    ("eqn/no-indent", Hjson, true, lines("", " = ", "\n", pairs)),
+    ("eqn/lead-newline-no-indent", Hjson, true, format!("\n{}", lines("", " = ", "\n", pairs))),
+    ("eqn/deep-indent", Hjson, true, format!("\n{}        ", lines("        ", " = ", "\n", pairs))),
+    ("eqn/tabs", Hjson, true, format!("\n{}", lines("\t", "\t=\t", "\n", pairs))),
+    ("eqn/crlf", Hjson, true, format!("\r\n{}", lines("  ", " = ", "\r\n", pairs))),
+    ("eqn/no-spaces", Hjson, true, lines("", "=", "\n", pairs)),
+    ("eqn/colon", Hjson, true, lines("", ": ", "\n", pairs)),
+    ("eqn/blank-lines", Hjson, true, format!("\n\n{}\n", lines("  ", " = ", "\n\n", pairs))),
+    ("eqn/trailing-spaces", Hjson, true, lines("  ", " = ", "   \n", pairs)),
+    ("eqn/reversed", Hjson, true, format!("\n{}", lines("  ", " = ", "\n", &rev))),
+    ("eqn/rotated", Hjson, true, format!("\n{}", lines("  ", " = ", "\n", &rot))),
+    ("eqn/expr-spaced", Hjson, true, format!("\n{}", lines("  ", " = ", "\n", &spaced))),
+    ("eqn/quoted-values", Hjson, true, pairs.iter().map(|(k, v)| format!("{k} = \"{v}\"\n")).collect::<String>()),
+    ("eqn/one-line-quoted", Hjson, true, pairs.iter().map(|(k, v)| format!("{k} = \"{v}\"")).collect::<Vec<_>>().join(", ")),
+    ("eqn/comment-line", Hjson, true, format!("\n  # published formulas\n{}", lines("  ", " = ", "\n", pairs))),
+    // forms the pinned tree does not accept (K table only)
+    ("eqn/unterminated", Hjson, false, lines("", " = ", "\n", pairs).trim_end().to_string()),
+    ("eqn/unterminated-space", Hjson, false, format!("{} ", lines("", " = ", "\n", pairs).trim_end())),
+    ("eqn/one-line-quoteless", Hjson, false, format!("{}\n", pairs.iter().map(|(k, v)| format!("{k} = {v}")).collect::<Vec<_>>().join(", "))),
+    ("eqn/upper-keys", Hjson, false, lines("", " = ", "\n", &upper)),
+    ("eqn/semicolons", Hjson, false, lines("", " = ", ";\n", pairs)),
+  ]
+}
+
+fn hex_of(s: &str) -> String {
+  s.bytes().map(|b| format!("{:02x}", b)).collect()
+}
+
+/// `EXPR` / `ERR` / `PANIC` / the built-in's variant name
+fn parse_outcome(r: &Option<Option<CrystalType>>) -> String {
+  match r {
+    None => "PANIC".into(),
+    Some(None) => "ERR".into(),
+    Some(Some(CrystalType::Expr(_))) => "EXPR".into(),
+    Some(Some(c)) => vname(c),
+  }
+}
+
+/// S `C01.text_forms`: the statement's "user expression crystals built from the same formulas" must return the
+/// published indices whatever the (documented) textual layout in which the formulas reach the crate's parser: every
+/// required form of `expr_text_forms`, through every route that takes that syntax, has to build an expression crystal
+/// whose indices are bit-identical to those of the compact JSON read by serde and within 16 ulp of the built-in's.
+/// K `parse_form <form> <crystal>` ⇒ outcome per route (model: the accepted-form table, independent of the crystal);
+/// K `from_string_hex <hex>` ⇒ built-in variant or OTHER for identifiers in textual variants (whitespace, case,
+/// quotes): the pinned parser accepts the exact identifier only (model `fromString` on the decoded text).
+fn text_forms(ctx: &mut Ctx) {
+  use spdcalc::{CrystalConfig, CrystalSetup};
+  let cs = variants();
+  let mut per_form: std::collections::BTreeMap<&'static str, (usize, Option<String>)> = Default::default();
+  let n_src = expr_sources().len();
+  for (v, json, l_from, l_to) in expr_sources() {
+    let built_in = cs.iter().find(|c| vname(c) == v).unwrap().clone();
+    let (lo, hi) = gen_window(&built_in);
+    let label = format!("{}{}", v, if l_to < 2.0 { "-lo" } else if l_from > 0.0 { "-hi" } else { "" });
+    let base_ex = serde_json::from_str::<CrystalType>(json).ok();
+    // points inside the part of the window where this transcription applies
+    let a = lo.max(l_from * 1e-6);
+    let b = hi.min(if l_to.is_finite() { l_to * 1e-6 * (1.0 - 1e-9) } else { hi });
+    let mut pts: Vec<(f64, f64)> = vec![];
+    for (u, tc) in [(0.0, 20.0), (0.03, -50.0), (0.5, 131.0), (0.97, 200.0), (1.0, 24.5)] {
+      pts.push(((a.ln() + (b.ln() - a.ln()) * u).exp().clamp(a, b), tc));
+    }
+    pts.push((ctx.rng.log_range(a, b), ctx.rng.range(-50.0, 200.0)));
+    let pairs = expr_pairs(json);
+    for (form, syntax, required, text) in expr_text_forms(&pairs) {
+      let mut routes: Vec<(&str, Option<Option<CrystalType>>)> = vec![
+        ("from_string", guard(|| CrystalType::from_string(&text).ok())),
+        ("FromStr", guard(|| text.parse::<CrystalType>().ok())),
+      ];
+      if syntax == Syntax::Json {
+        routes.push(("serde_json", guard(|| serde_json::from_str::<CrystalType>(&text).ok())));
+        let cfg = format!(
+          r#"{{"kind":{},"pm_type":"e->eo","phi_deg":0,"theta_deg":0,"length_um":2000,"temperature_c":20.0}}"#,
+          text
+        );
+        routes.push(("config_json", guard(|| serde_json::from_str::<CrystalConfig>(&cfg).ok().map(|c| CrystalSetup::from(c).crystal))));
+      }
+      ctx.count(&format!("text_forms/{}", form.split('/').next().unwrap_or("x")));
+      let outs = routes.iter().map(|(n, r)| format!("{}={}", n, parse_outcome(r))).collect::<Vec<_>>().join(" ");
+      ctx.k("parse_form", &format!("{} {}", form, label), &outs);
+      if !required {
+        continue;
+      }
+      let e = per_form.entry(form).or_insert((0, None));
+      for (name, r) in routes.iter() {
+        let got = match r { Some(Some(c @ CrystalType::Expr(_))) => Some(c), _ => None };
+        let mut fail: Option<String> = None;
+        if got.is_none() {
+          fail = Some(format!("outcome={}", parse_outcome(r)));
+        } else {
+          for (lam, tc) in pts.iter() {
+            e.0 += 1;
+            let tk = kelvin(*tc);
+            let want = base_ex.as_ref().and_then(|x| idx_raw(x, *lam, tk));
+            let have = got.and_then(|x| idx_raw(x, *lam, tk));
+            let publ = idx_raw(&built_in, *lam, tk);
+            let close = match (&have, &publ) {
+              (Some(h), Some(p)) => (0..3).all(|i| h[i].is_finite() && (h[i] - p[i]).abs() <= EXPR_TOL),
+              _ => false,
+            };
+            if !(want.is_some() && same_bits(&want, &have) && close) {
+              fail = Some(format!("lam_bits={} lam_nm={} T_C={} form_value={:?} compact_serde_value={:?} builtin={:?}", fl(*lam), lam * 1e9, tc, have, want, publ).replace(", ", ","));
+              break;
+            }
+          }
+        }
+        if let (Some(f), true) = (fail, e.1.is_none()) {
+          e.1 = Some(format!("form={} crystal=expr/{} route={} text_hex={} {}", form, label, name, hex_of(&text), f));
+        }
+      }
+    }
+  }
+  for (form, (n, bad)) in per_form.iter() {
+    let base = format!("form={} expression_crystals={} evaluations={}", form, n_src, n);
+    ctx.s("C01.text_forms", bad.is_none(), &format!("text/{}", form), bad.as_ref().unwrap_or(&base));
+  }
+  // identifiers in textual variants
+  let mut texts: Vec<String> = vec![];
+  for c in cs.iter() {
+    let id = c.get_meta().id;
+    for t in [
+      format!(" {}", id), format!("{} ", id), format!("\n{}", id), format!("{}\n", id), format!("\t{}\t", id),
+      format!("\r\n{}\r\n", id), format!("  {}  ", id), format!("\"{}\"", id), format!("'{}'", id), format!("{{{}}}", id),
+      format!("{{\"kind\":\"{}\"}}", id), format!("kind = {}\n", id), format!(" {}", id.to_lowercase()), format!("{}\n", id.to_uppercase()),
+      id.replace('_', " "), id.replace('_', "-"), format!("{0} {0}", id), format!("{},", id), id.to_string(),
+    ] {
+      texts.push(t);
+    }
+  }
+  for t in ["", " ", "\n", "{", "}", "{}", " {}", "{ }\n", "no", "no = 1", "no = 1\n", "=", ":", "\"", "null", "[]", "0"] {
+    texts.push(t.to_string());
+  }
+  for t in texts.iter() {
+    let r = guard(|| CrystalType::from_string(t));
+    let r2 = guard(|| t.parse::<CrystalType>());
+    let cls = |r: &Option<Result<CrystalType, spdcalc::SPDCError>>| match r {
+      Some(Ok(CrystalType::Expr(_))) | Some(Err(_)) => "OTHER".to_string(),
+      Some(Ok(c)) => vname(c),
+      None => "PANIC".to_string(),
+    };
+    ctx.count("from_string/text-variant");
+    ctx.k("from_string_hex", &format!("h{}", hex_of(t)), &format!("{} {}", cls(&r), cls(&r2)));
   }
 }
